@@ -103,6 +103,7 @@ void vp_use2()
   vp_P m;
   REQUIRE_CALL(m, p(*trompeloeil::eq(1)));
   REQUIRE_CALL(m, p(*!trompeloeil::gt(1)));
+  REQUIRE_CALL(m, p(!*trompeloeil::eq(1)));
   REQUIRE_CALL(m, s(MEMBER_IS(&vp_S::m, trompeloeil::ge(1))));
   REQUIRE_CALL(m, c(trompeloeil::re("a")));
 }
